@@ -243,9 +243,42 @@ class KState:
                             out[l] = (bufs[0], bufs[1])
         return out
 
-    def member_events(self, cls, m):
-        """ordered (line, kind, member, node, detail) events of one method: kind in
-        wfull / wpart / read / exec-in / exec-out / escape"""
+    def member_events(self, cls, m, depth=0):
+        """ordered (line, kind, member, node, detail) events of one method: kind in wcall / wpart / read / exec-in / exec-out / escape.
+        A call of another method of the same object contributes that method's events at the place of the call (a private helper
+        that stages the input and runs the plan defines the buffers for its caller)."""
+        own = self._member_events_local(cls, m)
+        if depth >= 3:
+            return own
+        b = tbf.body(m)
+        spliced = []
+        for x in walk(b):
+            if x.get("k") in ("CallExpr", "CXXMemberCallExpr"):
+                base = tbf.call_base(x)
+                if base is not None and strip(base).get("k") != "CXXThisExpr":
+                    continue
+                nm = tbf.callee_name(x)
+                cands = [g for g in self.methods(cls, nm) if g is not m and len(g["params"]) == len(tbf.call_args(x))]
+                if len(cands) != 1:
+                    continue
+                for e in self.member_events(cands[0].get("cls") or cls, cands[0], depth + 1):
+                    if e[1] == "escape":
+                        continue
+                    kind = e[1]
+                    if kind == "wcall" and any(a.get("k") in ("IfStmt", "ForStmt", "WhileStmt", "DoStmt", "SwitchStmt") for a in tbf.ancestors(e[3])):
+                        kind = "wpart"       # a whole-buffer write the helper performs only under a condition defines nothing for the caller
+                    spliced.append((x["l"][1], kind, e[2], x, e[4], e[0]))
+        if not spliced:
+            return own
+        order = {"wcall": 0, "wpart": 1, "read": 2, "exec-in": 3, "exec-out": 4, "escape": 5}
+        allv = [(e[0], 0.5, 0, e) for e in own] + [(sp[0], 0.0, sp[5], sp[:5]) for sp in spliced]
+        # events of the callee happen at the call's line, before what the caller does later on that line, in the callee's own order
+        out = []
+        for line, pri, sub, e in sorted(allv, key=lambda t: (t[0], t[1], t[2], order.get(t[3][1], 9))):
+            out.append(e)
+        return out
+
+    def _member_events_local(self, cls, m):
         names = {f["name"]: f for _c, f in self.fields(cls)}
         ptrish = {n for n, f in names.items() if "*" in f.get("t", "") or "[" in f.get("t", "")}
         plans = self.plan_aliases(cls)
